@@ -427,11 +427,26 @@ fn run_spell(cfg: &Cfg, index: u64, stats: &mut Stats) {
     let mut rng = Rng::for_case(cfg.seed, "C09/spell", index);
     let scratch = Scratch::new("c09spell");
     let base: PathBuf = scratch.path().canonicalize().unwrap();
-    let with_sig = rng.chance(1, 2);
+    // companion of a.zy: none / a file / a symbolic link to a signature that lives in another directory and imports a
+    // sibling there (a decoy of the same name sits next to the link) / the same, shared with a second implementation
+    let sig_mode = rng.below(5);
+    let with_sig = sig_mode >= 1;
+    let linked_sig = sig_mode >= 3;
+    let shared_sig = sig_mode == 4;
     std::fs::create_dir_all(base.join("lib/sub")).unwrap();
     std::fs::create_dir_all(base.join("main")).unwrap();
     std::fs::write(base.join("lib/a.zy"), "(1, 2)").unwrap();
-    if with_sig {
+    if linked_sig {
+        std::fs::create_dir_all(base.join("sigs")).unwrap();
+        std::fs::write(base.join("sigs/real.zyi"), "(@(import(\"t.zy\"))) * (@(intrinsic(i64)))").unwrap();
+        std::fs::write(base.join("sigs/t.zy"), "@(intrinsic(i64))").unwrap();
+        std::fs::write(base.join("lib/t.zy"), "@(intrinsic(string))").unwrap();
+        let _ = std::os::unix::fs::symlink("../sigs/real.zyi", base.join("lib/a.zyi"));
+        if shared_sig {
+            std::fs::write(base.join("lib/c.zy"), "(3, 4)").unwrap();
+            let _ = std::os::unix::fs::symlink(base.join("sigs/real.zyi"), base.join("lib/c.zyi"));
+        }
+    } else if with_sig {
         std::fs::write(base.join("lib/a.zyi"), "(@(intrinsic(i64)), @(intrinsic(i64)))").unwrap();
     }
     std::fs::write(base.join("lib/sub/b.zy"), "(@(import(\"../a.zy\")), @(import(\"./.././a.zy\")), 0)").unwrap();
@@ -465,6 +480,9 @@ fn run_spell(cfg: &Cfg, index: u64, stats: &mut Stats) {
     if via_b {
         text.push_str(&format!("@(import(\"{}\")), ", b_spelling));
     }
+    if shared_sig {
+        text.push_str("@(import(\"../lib/c.zy\")), ");
+    }
     text.push_str("0)");
     // the root itself may be addressed through a symlinked directory
     std::fs::write(base.join("main/root.zy"), &text).unwrap();
@@ -485,7 +503,14 @@ fn run_spell(cfg: &Cfg, index: u64, stats: &mut Stats) {
             if via_b {
                 expected.insert(base.join("lib/sub/b.zy"));
             }
-            if with_sig {
+            if linked_sig {
+                // the signature under its canonical path, once, with the import resolved next to the real file
+                expected.insert(base.join("sigs/real.zyi"));
+                expected.insert(base.join("sigs/t.zy"));
+                if shared_sig {
+                    expected.insert(base.join("lib/c.zy"));
+                }
+            } else if with_sig {
                 expected.insert(base.join("lib/a.zyi"));
             }
             let got: Vec<PathBuf> = graph.sources.iter().map(|(_, f)| f.path.clone()).collect();
@@ -493,7 +518,12 @@ fn run_spell(cfg: &Cfg, index: u64, stats: &mut Stats) {
             if got.len() != got_set.len() || got_set != expected {
                 problems.push(format!("sources {:?}, expected {:?}", got, expected));
             }
-            let occurrences = k + if via_b { 3 } else { 0 };
+            let occurrences = k + if via_b { 3 } else { 0 } + if linked_sig { 1 } else { 0 } + if shared_sig { 1 } else { 0 };
+            let order: Vec<PathBuf> = graph.provider_order().iter().map(|id| graph.sources[id].path.clone()).collect();
+            let order_set: BTreeSet<PathBuf> = order.iter().cloned().collect();
+            if order.len() != order_set.len() {
+                problems.push(format!("provider order lists a source twice: {:?}", order));
+            }
             if graph.imports.len() != occurrences {
                 problems.push(format!("{} import edges for {} occurrences", graph.imports.len(), occurrences));
             }
@@ -501,7 +531,7 @@ fn run_spell(cfg: &Cfg, index: u64, stats: &mut Stats) {
             for (_, file) in graph.sources.iter() {
                 if file.path == a_path {
                     let has = file.signature.map(|s| graph.sources[&s].path.clone());
-                    let want = with_sig.then(|| base.join("lib/a.zyi"));
+                    let want = with_sig.then(|| if linked_sig { base.join("sigs/real.zyi") } else { base.join("lib/a.zyi") });
                     if has != want {
                         problems.push(format!("companion of a.zy is {:?}, expected {:?}", has, want));
                     }
@@ -509,6 +539,17 @@ fn run_spell(cfg: &Cfg, index: u64, stats: &mut Stats) {
             }
         }
     }
+    // an adjacent signature makes each import mean `(implementation : signature)`: (1, 2) against (Int64, Int64) checks
+    // only if the signature's own import was resolved next to the real file (the decoy next to the link is String)
+    if problems.is_empty() && linked_sig {
+        let analyzed = crate::pipeline::analyze_in(CompilerSession::default(), root_spelling.clone());
+        stats.count("linked_signature_analyses");
+        if !analyzed.verdict.is_accept() {
+            problems.push(format!("root with a symlinked companion is not accepted: {}", analyzed.verdict.brief().chars().take(300).collect::<String>()));
+        }
+    }
+    stats.nontrivial(format!("spell-sig/{}", sig_mode).as_bytes());
+    stats.cover("companion_modes", ["none", "file", "file", "symlink-elsewhere", "symlink-shared"][sig_mode]);
     if index == 0 {
         stats.sample(json!({"spelling_root": text}));
     }
